@@ -166,7 +166,7 @@ fn inject(case: &Case, fe: usize, buffered: Option<usize>, pol: Policy, clean: &
 }
 
 pub fn inputs(ctx: &Ctx) -> Vec<Case> {
-    let mut v = crate::checks::c07::small_cases(ctx, ctx.tier.pick(60, 600));
+    let mut v = crate::checks::c07::small_cases(ctx, ctx.tier.pick(150, 600));
     // force all-zero values for every 3rd so set front ends apply
     for (i, c) in v.iter_mut().enumerate() {
         if i % 3 == 2 {
